@@ -113,7 +113,19 @@ LunScripts ==
            << NewReader("l", r, TRUE), call(1), ReadReact(r, 1, 77, TRUE, TRUE, FALSE),
               call(2), BusyReact(r, 2, 192), ReadReact(r, 3, 77, TRUE, TRUE, FALSE),
               call(3), BusyReact(r, 4, 195), BusyReact(r, 5, 192), ReadReact(r, 6, 77, TRUE, TRUE, FALSE) >>, "lun") : lun \in 0..3 }
-Scripts == CASE Family = "sweep" -> Sweeps [] Family = "misc" -> RefusalScripts \cup FlagScripts \cup FlagHistory \cup Factors \cup ZeroScripts \cup SharedScripts \cup ReservedScripts [] Family = "lun" -> LunScripts
+\* a command that is retransmitted more often than any narrow counter can count (255 .. 300 node-busy answers) and is then
+\* answered, followed by another command: every one of the datagrams takes the next sequence number (C09), carries the
+\* same request (C06), and the first final answer is returned (C10)
+LongBusyScripts ==
+  { LET r == Rec(0, 0, 2, 1, 0, 0, lun, 60 + lun)
+        one == ReadCall("l", r, 91, TRUE, TRUE, FALSE)
+        rq == one.exp.reqs[1]
+        call(m) == [one EXCEPT !.exp = [@ EXCEPT !.prop = "C10", !.reqs = [i \in 1..m |-> rq]]] IN
+    Script("longbusy-" \o ToString(lun) \o "-" \o ToString(n),
+           << NewReader("l", r, TRUE), call(n + 1) >> \o [j \in 1..n |-> BusyReact(r, j, IF j % 7 = 0 THEN 195 ELSE 192)] \o << ReadReact(r, n + 1, 91, TRUE, TRUE, FALSE),
+              call(1), ReadReact(r, n + 2, 91, TRUE, TRUE, FALSE), call(2), BusyReact(r, n + 3, 192), ReadReact(r, n + 4, 91, TRUE, TRUE, FALSE) >>, "lun")
+    : lun \in {0, 2}, n \in {254, 255, 256, 257, 300} }
+Scripts == CASE Family = "sweep" -> Sweeps [] Family = "misc" -> RefusalScripts \cup FlagScripts \cup FlagHistory \cup Factors \cup ZeroScripts \cup SharedScripts \cup ReservedScripts [] Family = "lun" -> LunScripts \cup LongBusyScripts
 Header == [header |-> TRUE, family |-> "sensor", defs |-> SessionDefs(S), stable |-> <<"SIK", "kB", "kR">>,
            session |-> SessionRecipes(S), prefixes |-> [hs |-> HandshakeSteps(S)]]
 ASSUME PrintT(<<"HEADER", ToJson(Header)>>)
